@@ -145,8 +145,89 @@ def rewrite(text):
     return ast.unparse(tree) + "\n", rw.stats
 
 
+def private_names(root):
+    """private attribute names (single leading underscore) that can be renamed consistently in lena/: set as
+    `obj._x = ...` or defined as a method / class attribute, never a module-level name, never spelled in a string
+    literal in lena/, never used by lena's tests"""
+    import re
+    defined, module_level, in_strings = set(), set(), set()
+    files = sorted((root / "lena").rglob("*.py"))
+    for f in files:
+        tree = ast.parse(f.read_text())
+        for st in tree.body:
+            if isinstance(st, (ast.FunctionDef, ast.AsyncFunctionDef, ast.ClassDef)):
+                module_level.add(st.name)
+            elif isinstance(st, ast.Assign):
+                for t in st.targets:
+                    if isinstance(t, ast.Name):
+                        module_level.add(t.id)
+            elif isinstance(st, (ast.Import, ast.ImportFrom)):
+                for a in st.names:
+                    module_level.add((a.asname or a.name).split(".")[0])
+        for n in ast.walk(tree):
+            if isinstance(n, ast.Attribute) and isinstance(n.ctx, ast.Store):
+                defined.add(n.attr)
+            elif isinstance(n, ast.ClassDef):
+                for st in n.body:
+                    if isinstance(st, (ast.FunctionDef, ast.AsyncFunctionDef)):
+                        defined.add(st.name)
+                    elif isinstance(st, ast.Assign):
+                        for t in st.targets:
+                            if isinstance(t, ast.Name):
+                                defined.add(t.id)
+            elif isinstance(n, ast.Constant) and isinstance(n.value, str):
+                in_strings.update(re.findall(r"_[A-Za-z][A-Za-z0-9_]*", n.value))
+    used_by_tests = set()
+    for f in (root / "tests").rglob("*.py"):
+        used_by_tests.update(re.findall(r"\b(_[A-Za-z][A-Za-z0-9_]*)", f.read_text()))
+    return {x for x in defined if x.startswith("_") and not x.startswith("__")} - module_level - in_strings - used_by_tests
+
+
+class PrivateRenamer(ast.NodeTransformer):
+    def __init__(self, names):
+        self.names, self.n = names, 0
+        self.in_class = 0
+
+    def visit_Attribute(self, n):
+        self.generic_visit(n)
+        if n.attr in self.names:
+            n.attr += "_p"
+            self.n += 1
+        return n
+
+    def visit_ClassDef(self, n):
+        for st in n.body:
+            if isinstance(st, (ast.FunctionDef, ast.AsyncFunctionDef)) and st.name in self.names:
+                st.name += "_p"
+                self.n += 1
+            elif isinstance(st, ast.Assign):
+                for t in st.targets:
+                    if isinstance(t, ast.Name) and t.id in self.names:
+                        t.id += "_p"
+                        self.n += 1
+        self.generic_visit(n)
+        return n
+
+
+def rename_private(root):
+    names = private_names(root)
+    total = 0
+    for f in sorted((root / "lena").rglob("*.py")):
+        tree = ast.parse(f.read_text())
+        r = PrivateRenamer(names)
+        tree = r.visit(tree)
+        if r.n:
+            ast.fix_missing_locations(tree)
+            f.write_text(ast.unparse(tree) + "\n")
+            total += r.n
+    return sorted(names), total
+
+
 def sh(cmd, **kw):
     return subprocess.run(cmd, capture_output=True, text=True, **kw)
+
+
+PRIVATE = False
 
 
 def one(pid):
@@ -154,6 +235,9 @@ def one(pid):
     res = {"property": pid, "files": {}}
     sh(["git", "-C", "/repo", "worktree", "add", "-q", "--detach", str(wt), "HEAD"])
     try:
+        if PRIVATE:
+            names, n = rename_private(wt)
+            res["private_renamed"] = {"names": len(names), "occurrences": n}
         for rel in anchored_files(pid):
             p = wt / rel
             if p.exists():
@@ -190,8 +274,14 @@ def one(pid):
 def main():
     ap = argparse.ArgumentParser()
     ap.add_argument("--jobs", type=int, default=4)
+    ap.add_argument("--private", action="store_true", help="additionally rename every private attribute (self._x, methods "
+                    "_m) consistently in the whole package (names spelled in strings or used by lena's tests are kept)")
     ap.add_argument("ids", nargs="*")
     a = ap.parse_args()
+    global PRIVATE, OUT
+    PRIVATE = a.private
+    if PRIVATE:
+        OUT = VERIF / "out" / "harmless_private"
     ids = a.ids or [json.loads(l)["id"] for l in (VERIF / "properties.jsonl").read_text().splitlines() if l.strip()]
     bad = 0
     with ThreadPoolExecutor(a.jobs) as ex:
